@@ -1,7 +1,7 @@
 (* C06 - formatting a parsed document preserves its meaning and is idempotent.
-   Only statements closed by [exact]; models: Fmt/Render.v (renderers, faithful), Fmt/LitParse.v (specification parsers);
-   proofs: Fmt/RenderProofs.v.  Theorems named _partial carry the full statement in the comment above them and have a
-   _refuted companion with a concrete witness (each witness is replayed on the real crate by ./check C06). *)
+   Only statements closed by [exact]; models: Fmt/Render.v (the renderers of the repaired crate, faithful),
+   Fmt/LitParse.v (specification parsers); proofs: Fmt/RenderProofs.v.  Theorems named _partial carry the full statement
+   in the comment above them and have a _refuted companion with a concrete witness (replayed on the real crate by ./check C06). *)
 From Cddl Require Import Base.Bytes Fmt.Render Fmt.LitParse Fmt.RenderProofs.
 Open Scope N_scope.
 
@@ -16,26 +16,15 @@ Theorem C06_render_int_rt_refuted :
   exists z, (- Z.of_N two63 <= z < Z.of_N two63)%Z /\ parse_lit (render_lit (LInt z)) <> Some (LInt z).
 Proof. exact render_int_rt_refuted. Qed.
 
-(* FULL: forall x, parse_lit (render_lit (LFloat x)) = Some (LFloat x) - false: integral values print without a fraction *)
-Theorem C06_render_float_rt_partial : forall neg m e, (e < 0)%Z -> m mod 10 <> 0 ->
+(* floats: every finite value in decimal normal form (integral values keep ".0"; infinities/NaN have no CDDL spelling and
+   cannot come out of the parser) *)
+Theorem C06_render_float_rt : forall neg m e, fl_canon m e ->
   parse_lit (render_lit (LFloat (FFin neg m e))) = Some (LFloat (FFin neg m e)).
-Proof. exact render_float_rt_partial. Qed.
-Theorem C06_render_float_rt_refuted :
-  parse_lit (render_lit (LFloat (FFin false 1 0))) = Some (LUint 1) /\
-  parse_lit (render_lit (LFloat (FFin false 15 2))) = Some (LUint 1500) /\
-  parse_lit (render_lit (LFloat (FFin false 16 0))) = Some (LUint 16) /\
-  parse_lit (render_lit (LFloat (FFin true 0 0))) = Some (LInt 0) /\
-  parse_lit (render_lit (LFloat (FInf false))) = None.
-Proof. exact render_float_rt_refuted. Qed.
+Proof. exact render_float_rt. Qed.
 
-(* FULL: forall s, parse_lit (render_lit (LText s)) = Some (LText s) - false: nothing is re-escaped *)
-Theorem C06_render_text_rt_partial : forall s, no_quote_backslash s = true ->
-  parse_lit (render_lit (LText s)) = Some (LText s).
-Proof. exact render_text_rt_partial. Qed.
-Theorem C06_render_text_rt_refuted : exists s, parse_lit (render_lit (LText s)) <> Some (LText s).
-Proof. exact render_text_rt_refuted. Qed.
-Theorem C06_render_text_rt_refuted_backslash : parse_lit (render_lit (LText [97; 92; 98])) = Some (LText [97; 8]).
-Proof. exact render_text_rt_refuted_backslash. Qed.
+(* text: every stored value, quotes and backslashes included *)
+Theorem C06_render_text_rt : forall s, parse_lit (render_lit (LText s)) = Some (LText s).
+Proof. exact render_text_rt. Qed.
 
 (* byte strings: h'..' and b64'..' for every byte string; '..' when the value has no apostrophe *)
 Theorem C06_render_bytes_hex_rt : forall bs, wf_bytes bs -> parse_lit (render_lit (LBytes BH bs)) = Some (LBytes BH bs).
@@ -58,26 +47,31 @@ Proof. exact render_occur_rt_refuted. Qed.
 (* tag heads: #6.n  #m  #m.n  # *)
 Theorem C06_render_tag_head_rt : forall t, taghead_ok t -> parse_tag_head (render_tag_head t) = Some t.
 Proof. exact render_tag_head_rt. Qed.
+Theorem C06_render_tagged_no_type_rt : forall c, (match c with Some n => n < two64 | None => True end) ->
+  parse_tag_head (render_tagged c None) = Some (TTagged c).
+Proof. exact render_tagged_no_type_rt. Qed.
 
 (* control operators: name table, and the grammar's ordered choice *)
 Theorem C06_render_ctl_rt : forall c, parse_ctl (render_ctl c) = Some c.
 Proof. exact render_ctl_rt. Qed.
-Theorem C06_render_ctl_peg_partial : forall c, c <> CCborseq -> peg_ctl (render_ctl c ++ [32]) = Some (c, [32]).
+(* FULL: forall c rest, peg_ctl (render_ctl c ++ 32 :: rest) = Some (c, 32 :: rest) - false only for .cborseq, which
+   cddl.pest's ordered choice can never produce ("cbor" is tried first): a defect of the grammar, not of the printer *)
+Theorem C06_render_ctl_peg_partial : forall c rest, c <> CCborseq -> peg_ctl (render_ctl c ++ 32 :: rest) = Some (c, 32 :: rest).
 Proof. exact render_ctl_peg_partial. Qed.
 Theorem C06_render_ctl_peg_refuted : peg_ctl (render_ctl CCborseq ++ [32]) = Some (CCbor, [115; 101; 113; 32]).
 Proof. exact render_ctl_peg_refuted. Qed.
-Theorem C06_render_ctl_glue_refuted : peg_ctl (render_ctl CAbnf ++ [98; 115; 116; 114]) = Some (CAbnfb, [115; 116; 114]).
-Proof. exact render_ctl_glue_refuted. Qed.
+(* Type1::fmt separates a control operator from its controller by a blank: it is read back as itself whatever follows *)
+Theorem C06_render_type1_ctl : forall name_like left c right, c <> CCborseq ->
+  exists pre, render_type1 name_like left (render_ctl c) true right = pre ++ render_ctl c ++ 32 :: right /\
+              peg_ctl (render_ctl c ++ 32 :: right) = Some (c, 32 :: right).
+Proof. exact render_type1_ctl. Qed.
 
 (* identifiers with socket prefixes; unwrap, group-to-choice and cut markers; range operators *)
 Theorem C06_render_ident_rt : forall s id, ident_ok id -> parse_ident (render_ident s id) = Some (s, id).
 Proof. exact render_ident_rt. Qed.
-(* FULL: forall m s id, parse_marked (render_marked m s id) = Some (m, s, id) - false: Type2::Unwrap prints no '~' *)
-Theorem C06_render_marked_rt_partial : forall m s id, ident_ok id -> hd 0 id <> 126 -> hd 0 id <> 38 ->
-  m <> MUnwrap -> parse_marked (render_marked m s id) = Some (m, s, id).
-Proof. exact render_marked_rt_partial. Qed.
-Theorem C06_render_marked_rt_refuted : parse_marked (render_marked MUnwrap SNone [98]) = Some (MName, SNone, [98]).
-Proof. exact render_marked_rt_refuted. Qed.
+Theorem C06_render_marked_rt : forall m s id, ident_ok id -> hd 0 id <> 126 -> hd 0 id <> 38 ->
+  parse_marked (render_marked m s id) = Some (m, s, id).
+Proof. exact render_marked_rt. Qed.
 Theorem C06_render_cut_rt : forall b, parse_cut (render_cut b) = Some b.
 Proof. exact render_cut_rt. Qed.
 Theorem C06_render_rangeop_rt : forall b, parse_rangeop (render_rangeop b) = Some b.
@@ -87,6 +81,10 @@ Proof. exact render_rangeop_rt. Qed.
 Example C06_example_float : parse_lit (render_lit (LFloat (FFin true 123456789 (-3)))) = Some (LFloat (FFin true 123456789 (-3))).
 Proof. vm_compute. reflexivity. Qed.
 Example C06_example_b64 : render_lit (LBytes BB [251; 255; 191]) = [98; 54; 52; 39; 45; 95; 45; 95; 39].
+Proof. vm_compute. reflexivity. Qed.
+Example C06_example_integral_float : render_lit (LFloat (FFin false 15 2)) = [49; 53; 48; 48; 46; 48].
+Proof. vm_compute. reflexivity. Qed.
+Example C06_example_text : render_lit (LText [113; 34; 92]) = [34; 113; 92; 34; 92; 92; 34].
 Proof. vm_compute. reflexivity. Qed.
 Example C06_example_occur : parse_occur (render_occur (OExact (Some 2) (Some 18446744073709551615))) = Some (OExact (Some 2) (Some 18446744073709551615)).
 Proof. vm_compute. reflexivity. Qed.
